@@ -178,7 +178,7 @@ impl Check for C10 {
         let mut ctx = Context::default();
         let mut cfg = mc_sys_cfg(&mut rng);
         cfg.arrays = false;
-        cfg.init_reads_inputs = false;
+        // (mc_sys_cfg lets the init expressions of a quarter of the systems read inputs)
         cfg.max_state_bits = *rng.pick(&[4u32, 6, 8]);
         // two thirds of the cases look for a safe system with a non-trivial reachable set (PDR has to find
         // an invariant there); failing systems are plentiful anyway
